@@ -239,6 +239,9 @@ class MibCompiler(object):
                 debug.logger & debug.flagCompiler and debug.logger('MIB %s already parsed' % mibname)
                 continue
 
+            # has a source failed on this name (not: on a module of that name)
+            sourceFailed = False
+
             for source in self._sources:
                 debug.logger & debug.flagCompiler and debug.logger('trying source %s' % source)
 
@@ -253,7 +256,7 @@ class MibCompiler(object):
                             '%s has been read before' % fileInfo.path)
 
                         if requested:
-                            if mibname in failedMibs:
+                            if sourceFailed:
                                 # an earlier source failed on this name
                                 del failedMibs[mibname]
 
@@ -290,14 +293,11 @@ class MibCompiler(object):
                             )
 
                         except error.PySmiError:
-                            if len(mibTrees) == 1:
-                                brokenMibImports[mibname] = sorted(mibTree[2] or ())
-                                raise
-
                             brokenMibImports[mibTree[0]] = sorted(mibTree[2] or ())
 
-                            # one broken module does not take the other
-                            # modules of its file with it
+                            # the failure belongs to the module, whatever
+                            # name its file was found under, and does not
+                            # take the other modules of the file with it
                             exc_class, exc, tb = sys.exc_info()
 
                             exc.source = source
@@ -313,6 +313,11 @@ class MibCompiler(object):
 
                             brokenMibs.add(mibTree[0])
 
+                            if mibTree[0] == mibname:
+                                # this failure takes the place of an earlier
+                                # source's
+                                sourceFailed = False
+
                             if requested:
                                 # part of a requested file, as its sound
                                 # modules are
@@ -324,7 +329,9 @@ class MibCompiler(object):
 
                         parsedMibs[mibInfo.name] = fileInfo, mibInfo, mibTree
 
-                        if mibname in failedMibs and mibname not in brokenMibs:
+                        if sourceFailed:
+                            sourceFailed = False
+
                             del failedMibs[mibname]
 
                             # an earlier source failed on this MIB, this one
@@ -366,7 +373,7 @@ class MibCompiler(object):
                             'no module %s in the file found at %s' % (mibname, source))
                         continue
 
-                    if mibname in failedMibs:
+                    if sourceFailed:
                         # an earlier source failed on this name, this one
                         # answers it with modules that are known already
                         del failedMibs[mibname]
@@ -392,6 +399,8 @@ class MibCompiler(object):
                     failedMibs[mibname] = exc
 
                     processed[mibname] = statusFailed.setOptions(error=exc)
+
+                    sourceFailed = True
 
             else:
                 exc = error.PySmiError('MIB source %s not found' % mibname)
